@@ -229,6 +229,7 @@ type Frame struct {
 	iterKeyT   types.Type
 	results    Val
 	loopEntry  map[int]map[string]string // loop ordinal -> heap snapshot at loop entry (for old-at-entry)
+	loopEntryCnt map[int]map[string]string
 	parent     *Frame
 	lockSnap map[string]string
 	pseudo   bool
